@@ -64,7 +64,7 @@ UNIT = dict(
                  ("C01,C03,C15:parse_returns_every_parsed_entry", "ret matches Ok(o) ==> (initial_trim_in == 0 ==> o.0.len() == o.6)"),
              ],
              hints=[dict(before="        for plan_idx in 0..plan.len()", text="        let ghost mut consumed: Seq<usize> = Seq::empty(); // ghost: where parsing of each range stopped"),
-                    dict(after="                buf_offset += entry_consumed;\n            }", text="            proof { lemma_ranges_done_push(consumed, plan@, buffers@, plan_idx as int, buf_offset); consumed = consumed.push(buf_offset); }"),
+                    dict(after_loop=1, text="            proof { lemma_ranges_done_push(consumed, plan@, buffers@, plan_idx as int, buf_offset); consumed = consumed.push(buf_offset); }"),
                     dict(before="entries.push(Entry { data: final_data });", text="                    let ghost es0 = entries@;"),
                     dict(after="entries.push(Entry { data: final_data });", text="                    proof { lemma_payload_sum_push(es0, entries@.last()); }")],
              loops={
